@@ -1,5 +1,7 @@
 """C09 — every rule form counts its parent correctly from its children, with parameters."""
 import json
+import os
+import traceback
 
 ID = "C09"
 TITLE = "every rule form counts its parent correctly from its children, with parameters"
@@ -20,8 +22,10 @@ RULE = (
     "reverse, EquivalencePathRule chains (forward steps then reverse steps). rule.get_terms(n), n <= N <= 8, "
     "all parameter tuples, with the sub-term providers bound to the children's TRUE terms; compared with the "
     "model and (oracle) with the brute-force terms of the rule's own class. An 'edge' stream (15%) holds "
-    "configurations the code does not support (flipped child with merged or untracked statistics, "
-    "non-injective dictionaries in paths): only model = implementation is compared there. "
+    "configurations the code does not support: for the Complement forms (reverse / equivalence-of-reverse of a "
+    "union w.r.t. a child with merged or untracked statistics) the oracle judges them like every other case and "
+    "the two recorded behaviours are reported as KNOWN-FINDING (finding_match; two corpus cases make them appear "
+    "on every run); for Quotient and path edge cases only model = implementation is compared. "
     "Non-trivial: >= 1 extra parameter somewhere, >= 3 levels computed and a level with >= 2 distinct keys or a "
     "count >= 2."
 )
@@ -176,28 +180,110 @@ def impl(case):
         except (AssertionError, KeyError, ZeroDivisionError, NotImplementedError) as ex:
             err = ERR[type(ex).__name__]
             exc = "%s at level %d: %s" % (type(ex).__name__, n, str(ex)[:200])
+            frames = traceback.extract_tb(ex.__traceback__)
+            where = ["%s:%s" % (os.path.basename(f.filename), f.name) for f in frames[-2:]]
             break
     res = {"out": [levels, err]}
     if exc:
         res["raised"] = exc
+        res["raised_in"] = where
+    if case["form"] in (2, 5):
+        # the Complement constructor of the real rule: dictionary of the flipped child
+        cons = rule.constructor
+        d = cons.extra_parameters[cons.idx]
+        vals = list(d.values())
+        res["flipped"] = {
+            "untracked": [i for i, x in enumerate(rule.comb_class.extra_parameters) if x not in vals],
+            "merged": len(set(vals)) < len(vals),
+        }
     res["truth"] = [_canon(_U().true_terms(rule.comb_class, n)) for n in range(case["N"] + 1)]
     res["nparams"] = len(rule.comb_class.extra_parameters) + sum(len(c.extra_parameters) for c in rule.children)
     return res
 
 
 # ------------------------------------------------------------------ oracle
+TAG_UNTRACKED = "[complement: statistic(s) of the flipped child that no parent statistic maps to are reported as 0]"
+TAG_MERGED = "[complement: AssertionError in DisjointUnion.param_map, several parent statistics are mapped onto one statistic of the flipped child]"
+
+
+def _zeroed(level, positions):
+    """a table with the given coordinates forced to 0 (and re-aggregated)"""
+    acc = {}
+    for par, v in level:
+        key = tuple(0 if i in positions else x for i, x in enumerate(par))
+        acc[key] = acc.get(key, 0) + v
+    return sorted([list(k_), v] for k_, v in acc.items() if v != 0)
+
+
 def oracle(case, res):
+    """
+    The PROPERTY: rule.get_terms(n) equals the brute-force terms of the rule's own class for
+    every n <= N and raises nothing.  Judged on every case except the 'edge' cases of the
+    Quotient and path forms (3, 6).  For the Complement forms (2, 5) a failure is additionally
+    DESCRIBED (tag at the end of the message) when it is exactly one of the two recorded
+    behaviours; finding_match keys on the tag plus the shape of the case.
+    """
     if "exception" in res:
         return "implementation crashed: " + res["exception"]
-    if case.get("edge"):
+    if case.get("edge") and case["form"] not in (2, 5):
         return None
     levels, err = res["out"]
     truth = res["truth"]
-    for n, lv in enumerate(levels):
-        if lv != truth[n]:
-            return "size %d: rule.get_terms gives %r but the class has %r" % (n, lv[:6], truth[n][:6])
+    fl = res.get("flipped") or {"untracked": [], "merged": False}
+    zeroed = [_zeroed(t, fl["untracked"]) for t in truth]
+    bad = next((n for n, lv in enumerate(levels) if lv != truth[n]), None)
+    as_zeroed = bool(fl["untracked"]) and all(lv == zeroed[n] for n, lv in enumerate(levels))
     if err != []:
-        return "get_terms raised " + res.get("raised", str(err))
+        why = "get_terms raised " + res.get("raised", str(err))
+        if (err == ERR["AssertionError"] and fl["merged"] and (bad is None or as_zeroed)
+                and res.get("raised_in") == ["disjoint.py:get_terms", "disjoint.py:param_map"]):
+            why += " " + TAG_MERGED
+        return why
+    if bad is not None:
+        why = "size %d: rule.get_terms gives %r but the class has %r" % (bad, levels[bad][:6], truth[bad][:6])
+        if as_zeroed:
+            why += " " + TAG_UNTRACKED
+        return why
+    return None
+
+
+def _flipped_shape(case):
+    """(names of the flipped child's statistics, its dictionary) read off the case itself"""
+    spec, idx = case["spec"], case["idx"]
+    if spec["u"] == "syn":
+        if spec["node"][0] != "sum":
+            return None
+        kid, d = spec["node"][2][idx]
+        return list(kid[1]), [list(e) for e in d]
+    if spec.get("strategy") != "expansion":
+        return None
+    pl = spec["plans"][idx]
+    return [st[0] for st in pl["stats"]], [list(e) for e in pl["dict"]]
+
+
+def finding_match(case, why):
+    """
+    "complement-untracked-child-statistic": reverse of a DisjointUnion (form 2, or its equivalence
+        form 5) w.r.t. a child carrying a statistic that no parent statistic maps to, nothing is
+        raised, and every computed level is the truth with exactly those statistics set to 0.
+    "reverse-wrt-child-with-merged-statistics-asserts": reverse of a DisjointUnion (form 2) w.r.t. a
+        child onto which several parent statistics are mapped; AssertionError raised by
+        DisjointUnion.param_map called from Complement.get_terms.
+    Anything else (other wrong counts, other exceptions, other forms) matches nothing.
+    """
+    if not isinstance(why, str) or case.get("form") not in (2, 5):
+        return None
+    shape = _flipped_shape(case)
+    if shape is None:
+        return None
+    names, d = shape
+    vals = [b for _, b in d]
+    untracked = [x for x in names if x not in vals]
+    merged = len(set(vals)) < len(vals)
+    if why.endswith(TAG_UNTRACKED) and untracked and "raised" not in why:
+        return "complement-untracked-child-statistic"
+    if why.endswith(TAG_MERGED) and merged and case["form"] == 2 and "raised AssertionError" in why:
+        return "reverse-wrt-child-with-merged-statistics-asserts"
     return None
 
 
